@@ -1,5 +1,7 @@
 /* sim part 2: virtual clock, mock transport, parking, timed cache events */
 #include "sim_int.h"
+#include <sys/syscall.h>
+#include <unistd.h>
 
 #include <errno.h>
 
@@ -27,6 +29,15 @@ void __wrap_lrtr_dbg(const char *frmt, ...);
 void __wrap_lrtr_dbg(const char *frmt, ...)
 {
 	(void)frmt;
+}
+
+static pid_t my_tid(void)
+{
+	static __thread pid_t tid;
+
+	if (!tid)
+		tid = (pid_t)syscall(SYS_gettid);
+	return tid;
 }
 
 /* ------------------------------------------------------------------ virtual clock */
@@ -316,7 +327,7 @@ void sim_apply_events(struct sim *s, bool allow_notify)
 
 		if (e->done || e->at > VNOW)
 			continue;
-		if ((e->kind == 2 || e->kind == 7) && !allow_notify)
+		if ((e->kind == 2 || e->kind == 7 || e->kind == 8) && !allow_notify)
 			continue;
 		e->done = true;
 		if (e->kind == 1) {
@@ -347,6 +358,30 @@ void sim_apply_events(struct sim *s, bool allow_notify)
 				sim_disturb(s);
 				CNT("sim/event/raw_bytes_while_idle");
 			}
+		} else if (e->kind == 8) {
+			/* a well-formed prefix PDU nobody asked for, arriving slowly: the header now, the rest `param` seconds
+			 * later - the client is then inside one receive call while its refresh deadline may pass */
+			if (s->connected && !s->peer_closed && !s->silent && s->in_pos == s->in_len && s->u->np > 0 && s->cfg.ntevent < MAX_TEVENT) {
+				uint8_t b[40];
+				size_t n = pdu_prefix(b, s->mv, &s->u->p[rndn(&s->rng, (uint32_t)s->u->np)], 1);
+
+				sim_queue_bytes(s, b, 8);
+				memcpy(s->slow_rest, b + 8, n - 8);
+				s->slow_rest_len = n - 8;
+				s->slow_conn = s->opens;
+				s->cfg.tevent[s->cfg.ntevent++] = (struct tevent){VNOW + (time_t)e->param, 9, 0, false};
+				s->first_pdu_pending = false;
+				s->tfault_on_conn = true; /* an unsolicited PDU: later expectations on this connection are weak */
+				sim_disturb(s);
+				CNT("sim/event/unsolicited_pdu_header_sent");
+			}
+		} else if (e->kind == 9) {
+			if (s->connected && !s->peer_closed && s->slow_conn == s->opens && s->slow_rest_len) {
+				sim_queue_bytes(s, s->slow_rest, s->slow_rest_len);
+				sim_disturb(s);
+				CNT("sim/event/unsolicited_pdu_rest_sent");
+			}
+			s->slow_rest_len = 0;
 		} else if (e->kind == 2) {
 			if (s->connected && !s->peer_closed && !s->silent && s->in_pos == s->in_len) {
 				uint8_t b[16];
@@ -385,6 +420,7 @@ static int m_open(void *sk)
 	int old, rv = TR_SUCCESS;
 
 	CUR_SIM = s;
+	s->fsm_tid = my_tid();
 	if (SIM_GATE)
 		SIM_GATE(s, 0);
 	pthread_setcancelstate(PTHREAD_CANCEL_DISABLE, &old);
@@ -458,6 +494,7 @@ static int m_send(const void *sk, const void *pdu, const size_t len, const time_
 
 	(void)timeout;
 	CUR_SIM = s;
+	s->fsm_tid = my_tid();
 	if (SIM_GATE)
 		SIM_GATE(s, 0);
 	pthread_setcancelstate(PTHREAD_CANCEL_DISABLE, &old);
@@ -512,6 +549,7 @@ static int m_recv(const void *sk, void *buf, const size_t len, const time_t time
 	int old, rv;
 
 	CUR_SIM = s;
+	s->fsm_tid = my_tid();
 	if (SIM_GATE) {
 		/* the library enables cancellation around its receive calls: the gate is a cancellation point */
 		pthread_setcancelstate(PTHREAD_CANCEL_DISABLE, &old);
@@ -676,10 +714,73 @@ void sim_begin_phase(struct sim *s)
 	s->idle_calls = 0;
 }
 
+/* state letter of a thread of this process from /proc (R running/runnable, S sleeping, D disk wait, ...) */
+static char thread_state(pid_t tid)
+{
+	char pth[64], buf[512], *p;
+	FILE *f;
+	char st = '?';
+
+	snprintf(pth, sizeof(pth), "/proc/self/task/%d/stat", (int)tid);
+	f = fopen(pth, "r");
+	if (!f)
+		return '?';
+	if (fgets(buf, sizeof(buf), f)) {
+		p = strrchr(buf, ')');
+		if (p && p[1] == ' ')
+			st = p[2];
+	}
+	fclose(f);
+	return st;
+}
+
+/* The driver waits here for the FSM thread to park.  A thread that blocks for good inside the library (a lock it
+ * can never get) would leave the driver waiting for ever, and no logical step would ever be taken on which to decide.
+ * Deadlock monitor: the driver wakes once per second; when the FSM thread has made no transport call, has used no
+ * CPU time and has been asleep (state S, never R) at 25 consecutive looks, nothing in this process can wake it any
+ * more - the driver is the only other thread and it is waiting for the FSM thread - and that is reported. */
 void sim_wait_parked(struct sim *s)
 {
-	while (sem_wait(&s->done) != 0 && errno == EINTR)
-		;
+	long last_calls = -1;
+	int still = 0;
+	struct timespec cpu0 = {0, 0};
+
+	for (;;) {
+		struct timespec ts, cpu;
+		clockid_t cid;
+
+		clock_gettime(CLOCK_REALTIME, &ts);
+		ts.tv_sec += 1;
+		if (sem_timedwait(&s->done, &ts) == 0)
+			return;
+		if (errno == EINTR)
+			continue;
+		if (!s->fsm_tid || !s->sock || !s->sock->thread_id) {
+			still = 0;
+			continue;
+		}
+		memset(&cpu, 0, sizeof(cpu));
+		if (pthread_getcpuclockid(s->sock->thread_id, &cid) == 0)
+			clock_gettime(cid, &cpu);
+		if (s->tcalls != last_calls || thread_state(s->fsm_tid) != 'S' || cpu.tv_sec != cpu0.tv_sec || cpu.tv_nsec != cpu0.tv_nsec) {
+			last_calls = s->tcalls;
+			cpu0 = cpu;
+			still = 0;
+			continue;
+		}
+		if (++still >= 25 && !s->spin_reported) {
+			char key[96];
+
+			s->spin_reported = true;
+			VO.muted = false;
+			snprintf(key, sizeof(key), "C08:blocked:state-%d", s->sock->state);
+			viol("C08", key, "the client thread sleeps inside the library without a transport call, without CPU time and without anybody left to wake it (socket state %d, %ld transport calls so far)",
+			     s->sock->state, s->tcalls);
+			viol("C04", "C04:blocked", "client thread blocked for good inside the library (socket state %d)", s->sock->state);
+			s->finished = true;
+			vo_abort_case();
+		}
+	}
 }
 
 void sim_free(struct sim *s)
